@@ -141,9 +141,22 @@ theorem plainTextOf_litPieces (inv : List Char) (ls : List Lit) (hne : ls.isEmpt
   · rename_i h; exact absurd h hnn
   · simpa using plainTextLoop_litPieces inv ls []
 
-theorem compile_mdc (B : Build) (hB : B.mdcWhole = true) (long : Bool) (key : List Lit)
-    (dflt : Option (List Lit)) (p : Params) (hkne : key.isEmpty = false)
-    (hd : ∀ d, dflt = some d → d.isEmpty = false) :
+/-- … and with the repair of `C09/mdc-empty-argument` also of an empty one -/
+theorem mdcArg_litPieces (B : Build) (hB : B.mdcWhole = true) (hE : B.mdcEmptyOk = true) (inv : List Char)
+    (ls : List Lit) : mdcArg B inv (litPieces [] ls) = .ok (litChars ls) := by
+  cases ls with
+  | nil => simp [mdcArg, hE, litPieces, flushText, litChars]
+  | cons l ls =>
+    have hnn : litPieces [] (l :: ls) ≠ [] := litPieces_ne_nil (l :: ls) [] (Or.inr (by simp))
+    have hne : (litPieces [] (l :: ls)).isEmpty = false := by
+      cases h : litPieces [] (l :: ls) with
+      | nil => exact absurd h hnn
+      | cons a b => rfl
+    simp only [mdcArg, hne, Bool.and_false, Bool.false_eq_true, if_false, mdcArgText, hB, if_true]
+    exact plainTextOf_litPieces inv (l :: ls) rfl
+
+theorem compile_mdc (B : Build) (hB : B.mdcWhole = true) (hE : B.mdcEmptyOk = true) (long : Bool) (key : List Lit)
+    (dflt : Option (List Lit)) (p : Params) :
     compile B (.arg (mdcName long) (litPieces [] key :: dfltPieces dflt) p) =
       .leaf (.mdc (litChars key) (dfltChars dflt)) p := by
   rw [compile_arg]
@@ -153,11 +166,9 @@ theorem compile_mdc (B : Build) (hB : B.mdcWhole = true) (long : Bool) (key : Li
   have h4 : (mdcName long = cs!"X" || mdcName long = cs!"mdc") = true := by cases long <;> rfl
   simp only [h1, h2, h3, h4, if_true, Bool.false_eq_true, if_false]
   cases dflt with
-  | none => simp [dfltPieces, mdcChunk, mdcArgText, hB, plainTextOf_litPieces _ key hkne, dfltChars]
+  | none => simp [dfltPieces, mdcChunk, mdcArg_litPieces B hB hE, dfltChars]
   | some d =>
-    have hd2 := hd d rfl
-    simp [dfltPieces, mdcChunk, mdcArgText, hB, plainTextOf_litPieces _ key hkne,
-      plainTextOf_litPieces _ d hd2, dfltChars]
+    simp [dfltPieces, mdcChunk, mdcArg_litPieces B hB hE, dfltChars]
 
 theorem chunkOf_lit (B : Build) (l : Lit) : chunkOf B (.lit l) = .text [l.c] := by rw [chunkOf]
 theorem chunkOf_leaf (B : Build) (k long spec) :
@@ -178,31 +189,24 @@ theorem chunksOf_cons (B : Build) (p : Pat) (ps : List Pat) :
 
 mutual
 /-- compiling the piece of an escape / formatter encodes like its direct translation -/
-theorem compile_pieceOf (B : Build) (hB : B.mdcWhole = true) (bits : Nat) (env : Env) (r : Record) :
+theorem compile_pieceOf (B : Build) (hB : B.mdcWhole = true) (hE : B.mdcEmptyOk = true) (bits : Nat) (env : Env) (r : Record) :
     ∀ (p : Pat) (inArg : Bool), wfPat bits inArg p = true → plainChar p = none →
       encChunk env r (compile B (pieceOf p)) = encChunk env r (chunkOf B p)
   | .lit l, _, _, _ => by rw [pieceOf_lit, compile_text, chunkOf_lit]
   | .leaf k long spec, _, _, _ => by rw [pieceOf_leaf, compile_leafName, chunkOf_leaf]
   | .date long args spec, _, _, _ => by rw [pieceOf_date, compile_date, chunkOf_date]
-  | .mdc long key dflt spec, inArg, hwf, _ => by
-    rw [wfPat_mdc] at hwf
-    simp only [Bool.and_eq_true, Bool.not_eq_true'] at hwf
-    obtain ⟨⟨⟨hkne, _⟩, hd⟩, _⟩ := hwf
-    rw [pieceOf_mdc, chunkOf_mdc, compile_mdc B hB long key dflt _ hkne]
-    intro d hdd
-    subst hdd
-    simp only [Bool.and_eq_true, Bool.not_eq_true'] at hd
-    exact hd.1
+  | .mdc long key dflt spec, inArg, _, _ => by
+    rw [pieceOf_mdc, chunkOf_mdc, compile_mdc B hB hE long key dflt _]
   | .group k long body spec, inArg, hwf, _ => by
     rw [wfPat_group] at hwf
     simp only [Bool.and_eq_true] at hwf
     rw [pieceOf_group, compile_groupName, chunkOf_group]
     apply encChunk_group_congr
-    have := meaning_piecesOf B hB bits env r body true hwf.1 []
+    have := meaning_piecesOf B hB hE bits env r body true hwf.1 []
     rw [this]
     simp [ofText, seqOut_ok_nil]
 /-- … and so do the pieces of a pattern list (pending text `pre` first) -/
-theorem meaning_piecesOf (B : Build) (hB : B.mdcWhole = true) (bits : Nat) (env : Env) (r : Record) :
+theorem meaning_piecesOf (B : Build) (hB : B.mdcWhole = true) (hE : B.mdcEmptyOk = true) (bits : Nat) (env : Env) (r : Record) :
     ∀ (ps : List Pat) (inArg : Bool), wfPats bits inArg ps = true → ∀ pre : List Char,
       encList env r (compileL B (piecesOf pre ps)) =
         seqOut (.ok (ofText pre)) (encList env r (chunksOf B ps))
@@ -219,12 +223,12 @@ theorem meaning_piecesOf (B : Build) (hB : B.mdcWhole = true) (bits : Nat) (env 
       obtain ⟨l, hl, _, hc⟩ := plainChar_some hpc
       subst hl
       simp only []
-      rw [meaning_piecesOf B hB bits env r ps inArg hwf.2 (pre ++ [c]), chunkOf_lit, encChunk_text, hc,
+      rw [meaning_piecesOf B hB hE bits env r ps inArg hwf.2 (pre ++ [c]), chunkOf_lit, encChunk_text, hc,
         ofText_append', seqOut_ok_append]
     | none =>
       simp only []
-      rw [flush_meaning, compileL_cons, encList_cons, compile_pieceOf B hB bits env r p inArg hwf.1 hpc,
-        meaning_piecesOf B hB bits env r ps inArg hwf.2 []]
+      rw [flush_meaning, compileL_cons, encList_cons, compile_pieceOf B hB hE bits env r p inArg hwf.1 hpc,
+        meaning_piecesOf B hB hE bits env r ps inArg hwf.2 []]
       simp [ofText, seqOut_ok_nil]
 end
 
